@@ -19,7 +19,7 @@ func (c11rand) Read(p []byte) (int, error) {
 	return len(p), nil
 }
 
-// VerifC11_answer: for every key, iv and block-aligned ciphertext (32 or 48 bytes; 64 in thorough),
+// VerifC11_answer: for every key, iv and block-aligned ciphertext (0, 16, 32 or 48 bytes; 64 in thorough),
 // DecryptExchangeAnswer either fails or returns non-empty data whose SHA-1 equals the first 20
 // decrypted bytes. AES-IGE and SHA-1 are uninterpreted (any functions with D(E(x))=x).
 func VerifC11_answer() {
@@ -27,7 +27,7 @@ func VerifC11_answer() {
 	if verifrt.Tier() == 1 {
 		sizes = 3
 	}
-	n := 32 + 16*verifrt.Fork("blocks", sizes)
+	n := 16 * verifrt.Fork("blocks", sizes+2)
 	data := verifrt.NondetBytes("data", n)
 	key := verifrt.NondetBytes("key", 32)
 	iv := verifrt.NondetBytes("iv", 32)
@@ -39,6 +39,10 @@ func VerifC11_answer() {
 	}
 	verifrt.Assert(dst != nil, "C11.answer.nonnil")
 	if dst == nil {
+		return
+	}
+	if n < 20 { // too short to hold a hash at all: must have been refused
+		verifrt.Assert(false, "C11.answer.tooshort")
 		return
 	}
 	// re-derive the plaintext the same way and compare the hash prefix
